@@ -168,16 +168,17 @@ theorem export_expr_sound_mux_if (rd : Rd) (st : PSt) (isLocal : Bool) (t : Stri
   mux_if_sound rd st isLocal t sel in0 in1 s ty v0 v1 hty hs h0 h1
 
 /-- **Multiplexer as CASE** (`Process.cpp:798-838`) for every selector width `w`, every number of inputs ≤ 2^w and every fully
-defined selector value: the selected input, or all-'X' (the reference yields "undefined") if the selector has no input. -/
-theorem export_expr_sound_mux_case (rd : Rd) (st : PSt) (isLocal : Bool) (t : String) (ty : Ty) (selE : Expr) (w width : Nat) (sel : BV)
+defined selector value: the selected input, or the `WHEN OTHERS` value `xE` (= `muxOthers`: all-'X'; the reference yields
+"undefined") if the selector has no input. -/
+theorem export_expr_sound_mux_case (rd : Rd) (st : PSt) (isLocal : Bool) (t : String) (ty : Ty) (selE : Expr) (w : Nat) (xE : Expr) (sel : BV)
     (ins : List (Expr × Val)) (vX : Val)
     (hw : sel.length = w) (hty : rd.ty t = some ty) (hfit : ins.length ≤ 2 ^ w)
     (hsel : evalExpr (rd.withVars st.vars) selE = .ok (.uns (ofBools sel)))
     (hvals : ∀ p ∈ ins, evalRhs (rd.withVars st.vars) ty p.1 = .ok p.2)
-    (hX : evalRhs (rd.withVars st.vars) ty (.str (List.replicate width .X)) = .ok vX) :
-    execStmt rd st (muxCaseStmt isLocal t selE w width (ins.map (·.1))) =
+    (hX : evalRhs (rd.withVars st.vars) ty xE = .ok vX) :
+    execStmt rd st (muxCaseStmt isLocal t selE w xE (ins.map (·.1))) =
       .ok (assignTo isLocal st t ((refMux sel (ins.map (·.2))).getD vX)) :=
-  mux_case_sound rd st isLocal t ty selE w width sel ins vX hw hty hfit hsel hvals hX
+  mux_case_sound rd st isLocal t ty selE w xE sel ins vX hw hty hfit hsel hvals hX
 
 /-- **Priority conditional as IF/ELSIF/ELSE** (`Process.cpp:844-880`): first choice whose condition is true, else the default. -/
 theorem export_expr_sound_prio (rd : Rd) (st : PSt) (isLocal : Bool) (t : String) (ty : Ty) (hty : rd.ty t = some ty)
